@@ -3,9 +3,36 @@
    proposed-fixes/C15-end-once.diff and C15-collect-send-select-melt.diff) and
    coq/Model/Connect.v (CV0 pinned, CV1 = with C15-nil-pc.diff).
    `reachable v max s`: s is reached from `init max` by ANY finite interleaving of Collect steps,
-   any number of Pop and End callers, and peers closing on their own (unbounded). *)
+   any number of Pop and End callers, and peers closing on their own (unbounded).
+
+   What is tied to the Go code and what is not (connect).  The oracle of Model/Connect.v has one boolean per library call
+   that can fail.  o_newpc, o_negotiate, o_setremote, o_open are provoked in the Go code (coq/Run/ConnectRun.v: ICE
+   configurations pion rejects, scripted broker answers, a proxy that vanishes).  o_createdc, o_offer, o_setlocal
+   (pc.CreateDataChannel, pc.CreateOffer, pc.SetLocalDescription failing, with the pc.Close() branches of
+   preparePeerConnection) are covered by C15_connect_total for all 128 outcome combinations but CANNOT be provoked in
+   the unmodified code, for these reasons (pion/webrtc v3.1.41, pion/ice v2.2.6, read for this purpose):
+     - NewWebRTCPeerWithEvents receives only (config, broker, listener); preparePeerConnection builds its own
+       webrtc.SettingEngine (mDNS disabled, everything else default) and API, so the only thing a caller controls in
+       pion is the webrtc.Configuration, in which the client only ever sets ICEServers (rendezvous.go
+       NewWebRTCDialerWithEvents).  Everything pion checks about ICE servers (URL scheme, host, TURN credentials) is
+       checked in api.NewPeerConnection (initConfiguration, NewICEGatherer): that is o_newpc.
+     - CreateDataChannel fails only on a closed PeerConnection, on invalid parameters (MaxPacketLifeTime together with
+       MaxRetransmits, a label or protocol longer than 65535 bytes: the code passes the fixed label "snowflake-<16 hex>"
+       and Ordered only) or when no SCTP stream id is left on an established association (there is none yet).
+     - CreateOffer fails only on a closed PeerConnection, with an identity provider (pc.idpLoginURL, never set by pion),
+       when ice.NewAgent fails (port range, mDNS host name, ICE-lite, NAT 1:1 mapping, explicit ufrag/pwd: all taken
+       from the SettingEngine, which the code leaves at its defaults; the ICE URLs were validated before), or after 128
+       concurrent changes of the local media (there are no media).
+     - SetLocalDescription fails only on a closed PeerConnection, in a signalling state other than stable (the
+       PeerConnection is new), on a description that does not parse (it is the one CreateOffer has just produced), or
+       when ICEGatherer.Gather fails (the agent exists already; gathering errors are logged, not returned).
+     - Nobody but connect holds c.pc before connect returns: no event is emitted and no callback into caller code runs
+       between api.NewPeerConnection and SetLocalDescription, so a driver cannot close the PeerConnection in between.
+   The driver is an in-package test file (no change to /repo, no replacement of library files), so these three outcomes
+   stay theorem-only; a change of preparePeerConnection that, say, forgot pc.Close() on those branches would not be seen
+   by the correspondence. *)
 From Coq Require Import List Arith Bool.
-From Snow Require Import Model.Peers Model.Connect Model.CloseConn Proofs.PeersProofs Proofs.ConnectProofs Proofs.CloseConnProofs.
+From Snow Require Import Model.Peers Model.Connect Model.CloseConn Proofs.PeersProofs Proofs.PeersRetryProofs Proofs.ConnectProofs Proofs.CloseConnProofs.
 Import ListNotations.
 
 (* ---- bound.  "Held" = every peer that Catch has ever returned and that is not closed (they are all
@@ -82,9 +109,76 @@ Theorem C15_connect_total : forall o,
                   /\ (o_newpc o && o_createdc o && o_offer o && o_setlocal o && o_negotiate o && o_setremote o && o_open o = true)).
 Proof. exact connect_total_v1. Qed.
 
+(* ---- every event of an attempt can be rendered (both code versions, all 128 outcome combinations): a failure event
+   always carries its error.  render_ok is what String() - called on every event by the listener of the client binary,
+   on the goroutine that emits the event - needs in order not to panic. *)
+Theorem C15_events_renderable : forall v o, forallb render_ok (events (snd (new_peer v o))) = true.
+Proof. exact connect_events_render. Qed.
+
+(* ---- a failed attempt is reported: through an event that carries the failure, except when it is SetRemoteDescription
+   that refuses the answer (then only through the error returned to connectLoop, which logs it) *)
+Theorem C15_failure_reported : forall o, fst (new_peer CV1 o) = Conn_Err ->
+  existsb flagged (events (snd (new_peer CV1 o))) = true \/
+  (o_newpc o && o_createdc o && o_offer o && o_setlocal o && o_negotiate o = true /\ o_setremote o = false).
+Proof. exact connect_failure_reported. Qed.
+
 Theorem C15_connect_rendezvous_once : forall v o, rv_calls (snd (new_peer v o)) <= 1 /\
   (rv_calls (snd (new_peer v o)) = 1 -> o_newpc o && o_createdc o && o_offer o && o_setlocal o = true).
 Proof. exact connect_rendezvous_once. Qed.
+
+(* ==== "a failed attempt is ... retried later" (Proofs/PeersRetryProofs.v).  A failed attempt is the in-flight Catch
+   returning an error (Catch_err; by C15_connect_total that is every way NewWebRTCPeerWithEvents can fail). *)
+
+(* ---- the failure itself changes nothing but the collector's program counter: no peer, no list entry, no channel slot *)
+Theorem C15_failure_consumes_nothing : forall v s s', step v s Catch_err = Some s' ->
+  col s = C_Catching /\ s' = set_col s (C_Unlock R_Fail).
+Proof. exact catch_err_effect. Qed.
+
+(* ---- Collect then returns the error: two steps of the collector, always enabled, lead back to idle with the lock free *)
+Theorem C15_failure_returns_idle : forall max s, reachable V1 max s -> col s = C_Unlock R_Fail ->
+  exists s', run V1 s [Col_unlock; Col_return] = Some s' /\ s' = set_col (set_lock s None) C_Idle /\ lock s = Some T_Col.
+Proof. intros max s R Hc. exact (failure_returns_idle V1 max s R (v1_no_panic max s R) Hc). Qed.
+
+(* ---- from EVERY reachable state in which the connection has not been closed (melt open) and the collector is between two
+   Collect calls - after any number of failed attempts, under any interleaving with the other threads - Collect gets the
+   lock at once and starts a rendezvous attempt exactly when fewer than Max live peers are held: no failure latches *)
+Theorem C15_retry_enabled : forall max s, reachable V1 max s -> melted s = false -> col s = C_Idle ->
+  exists s1 s2, step V1 s Col_lock = Some s1 /\ step V1 s1 Col_check = Some s2 /\
+    (length (filter (live s) (active s)) < max -> col s2 = C_Catching) /\
+    (max <= length (filter (live s) (active s)) -> col s2 = C_Unlock R_AtCap).
+Proof. intros max s R Hm Hc. exact (retry_enabled V1 max s R (v1_no_panic max s R) Hm Hc). Qed.
+
+(* ---- and right after a failed attempt there always is room (the slot the attempt had reserved is free again): unless the
+   connection is closed meanwhile, the collector's next four steps put a new rendezvous attempt in flight, with the same
+   peers, the same channel contents, and the list merely purged of closed peers *)
+Theorem C15_retry_after_failure : forall max s, reachable V1 max s -> melted s = false -> col s = C_Unlock R_Fail ->
+  exists s', run V1 s [Col_unlock; Col_return; Col_lock; Col_check] = Some s' /\ col s' = C_Catching /\
+             next_peer s' = next_peer s /\ chan s' = chan s /\ closedf s' = closedf s /\
+             active s' = filter (live s) (active s).
+Proof. intros max s R Hm Hc. exact (retry_after_failure V1 max s R (v1_no_panic max s R) Hm Hc). Qed.
+
+(* ---- failures never consume capacity and are not counted anywhere: k+1 failed attempts in a row leave exactly the state
+   a single Count() purge leaves, for every k, and the next attempt can start from it *)
+Theorem C15_failures_leave_no_trace : forall v k s, can_attempt s ->
+  run v s (times (S k) collect_fail) = Some (purged s) /\ can_attempt (purged s).
+Proof. exact failures_leave_no_trace. Qed.
+
+Example C15_ex_failing_reachable : exists s, reachable V1 2 s /\ col s = C_Unlock R_Fail /\ melted s = false /\
+  panicked s = false /\ length (live_peers s) = 1.
+Proof. exact ex_failing_reachable. Qed.
+
+Example C15_ex_retry_enabled_hyps : exists s, reachable V1 2 s /\ melted s = false /\ col s = C_Idle /\ length (live_peers s) = 1.
+Proof.
+  destruct (run V1 (init 2) (collect_ok ++ collect_fail)) as [s|] eqn:E; [|vm_compute in E; discriminate].
+  exists s. split; [eapply run_reachable; [apply reach_init|exact E]|].
+  vm_compute in E. inversion E; subst. repeat split; reflexivity.
+Qed.
+
+Example C15_ex_can_attempt : can_attempt (init 1) /\ exists s, run V1 (init 2) collect_ok = Some s /\ can_attempt s.
+Proof. exact ex_can_attempt. Qed.
+
+Example C15_ex_failure_reported_hyp : fst (new_peer CV1 (mkO true true true true true true false)) = Conn_Err.
+Proof. reflexivity. Qed.
 
 (* ---- refutations on the pinned code (each witness was replayed on the Go code, see lib/checks/c15.py DIRECTED) *)
 Theorem C15_v0_refuted_double_end : exists s, run V0 (init 1) trace_double_end = Some s /\ panicked s = true
@@ -178,6 +272,29 @@ Theorem C15_close_terminates : forall max c k pc (oracle : bool), creachable K_p
   exists tr c', length tr <= 20 /\ Forall (close_helpful k oracle) tr /\
     crun K_pinned V1 c tr = Some c' /\ nth_error (closers c') k = Some (K_Done true).
 Proof. exact close_terminates. Qed.
+
+(* ---- "retried later" over the whole connection: whatever has happened to the connection short of closing it (the session
+   dead, the stream or the packet conn closed, any number of failed attempts before), while the collection has not been
+   ended the connect loop's next Collect gets the lock and starts a rendezvous attempt whenever fewer than Max peers are held *)
+Theorem C15_conn_retry_enabled : forall max c, creachable K_pinned V1 max c ->
+  melted (ps c) = false -> col (ps c) = C_Idle ->
+  exists c1 c2, cstep K_pinned V1 c (L_P Col_lock) = Some c1 /\ cstep K_pinned V1 c1 (L_P Col_check) = Some c2 /\
+    sess_dead c2 = sess_dead c /\ closers c2 = closers c /\
+    (length (filter (live (ps c)) (active (ps c))) < max -> col (ps c2) = C_Catching).
+Proof.
+  intros max c R Hm Hc. pose proof (creach_proj _ _ _ _ R) as Rp.
+  destruct (retry_enabled V1 max (ps c) Rp (v1_no_panic max _ Rp) Hm Hc) as (s1 & s2 & S1 & S2 & Hlt & _).
+  cbn [cstep]. rewrite S1. eexists. eexists. split; [reflexivity|]. cbn [cstep ps]. rewrite S2.
+  split; [reflexivity|]. cbn. auto.
+Qed.
+
+Example C15_ex_conn_retry_hyps : exists c, creachable K_pinned V1 2 c /\ melted (ps c) = false /\ col (ps c) = C_Idle /\
+  sess_dead c = true /\ length (live_peers (ps c)) = 1.
+Proof.
+  destruct (crun K_pinned V1 (kinit 2) (map L_P (collect_ok ++ collect_fail) ++ [L_SessDies])) as [c|] eqn:E; [|vm_compute in E; discriminate].
+  exists c. split; [eapply crun_reachable; [apply creach_init|exact E]|].
+  vm_compute in E. inversion E; subst. repeat split.
+Qed.
 
 (* ---- the theorems above depend on End being called unconditionally: a Close that returns when Stream.Close reports
    an error leaves the collection running with a rendezvous in flight *)
